@@ -261,7 +261,14 @@ func runScanProfile(c *Ctx, p scanProfile) {
 	rng := rand.New(rand.NewSource(c.Seed))
 
 	// 1. exhaustive model checking of the operational model against the oracle
+	exported := map[string]bool{}
+	for _, cfg := range p.Export {
+		exported[cfg.Name] = true
+	}
 	for _, cfg := range p.Check {
+		if exported[cfg.Name] {
+			continue // the export run below checks the same invariants on a superset of states (no VIEW)
+		}
 		res := tlcScan(c, cfg, 30*time.Minute, nil)
 		c.Note("TLC %s: %d states generated, %d distinct, depth %d, %.1fs: all invariants hold",
 			cfg.Name, res.Generated, res.Distinct, res.Depth, res.Wall.Seconds())
